@@ -52,6 +52,22 @@ P = {
          "TLC-exhaustive pool model + trace validation of real histories: each observation (route, every param, status, id) must "
          "be what a fresh Mux would give; ids unique and constant; number of requests on recycled Stores is measured",
          "sync.Pool reuse cannot be forced (measured); registrations only between requests", "5/C05"),
+
+ "C11": ("spec/netutil/IPv4Filter.tla (+IPv4FilterMC, IPv4FilterCases)",
+         "TLA+ spec: set-of-prefixes statement vs list+tombstones+migration+maps implementation; TLC explores the full reachable "
+         "graph of a small universe (refinement in every state), generates behaviours with predicted answers that are replayed on "
+         "the real filter via bit-position embedding + tombstone padding, and judges real-width recorded histories (W=32)",
+         "refinement checked exhaustively on the complete state graph (W=2/ListSize=3 quick, W=3/ListSize=2 thorough); G: simulated "
+         "spec behaviours replayed on real code with every model address probed in both forms; T: 650+-op real histories crossing "
+         "the real 256-slot switch judged by TLC against the abstract set",
+         "16-byte CIDR arguments not exercised as valid input; embedding argument in DESIGN 5/C11", "5/C11"),
+ "C12": ("spec/netutil/IPv4FilterConc.tla (+IPv4FilterConcMC, IPv4FilterConcCases)",
+         "TLA+ model of the RWMutex protocol with the migration as several steps inside the critical section and interval "
+         "bookkeeping (definitely/possibly present) as the statement; TLC checks all interleavings of 2 writers + readers and rejects "
+         "the lock-free reader; real traces (-race build, dwell hooks in critical sections) judged by TLC with the same bookkeeping",
+         "TLC-exhaustive interleavings in the bounded model; every recorded lookup of the real filter under churn across the switch "
+         "must satisfy: stable range covers => true, true => some possibly-present range covers; race detector reports are violations",
+         "witnessed schedules only (widened by seeded dwell inside the locked regions); Go race detector", "5/C12"),
 }
 
 NOT_BUILT_REASON = "check not built yet in this session (see DESIGN.md section 5 for the planned TLA+ spec and binding)"
